@@ -25,7 +25,7 @@ type vValHolder struct {
 func vASCIIValue(s string) bool {
 	for i := 0; i < len(s); i++ {
 		b := s[i]
-		if b >= 0x80 || b == '$' || b == '#' || b == '{' || b == '}' || b == '[' || b == ']' || b == ',' || b == '(' || b == ')' {
+		if b >= 0x80 || b == '{' || b == '}' || b == '[' || b == ']' || b == ',' || b == '(' || b == ')' {
 			return false
 		}
 	}
